@@ -722,12 +722,19 @@ def rule_height_guard(ctx, crate, rule="R-HEIGHT-GUARD"):
         ctx.bad(rule, "no-height-test", b.name, K.fn_loc(b),
                 "the paint loop never compares the rows painted so far plus the next line's rows with TermLike::height()", cfg)
         return
+    # All "dominates" questions below are asked for an iteration whose line is a Bar: on the CFG specialised to that variant, with
+    # flags folded (`let is_bar = matches!(line, Bar); if is_bar && over {break}; if is_bar {count}` tests the flag twice)
+    _R_bar, avoid_bar = K.variant_reach(b, crate, LINETYPE, "Bar", want_avoid=True)
+    avoid_bar = set(avoid_bar)
+
+    def edge_dom(e, target):
+        return b.edge_dominates(e, target) or (target in _R_bar and target not in b.reach([0], avoid_edges=avoid_bar | {e}))
     # classify guard edges: the edge from which a line paint is still reachable *within the same iteration*
     flush_bbs = {c.bb for c in tl_calls(b, "flush")}
     paint_bbs = {c.bb for c in paints}
     for sb, t, sl in guards:
         succs = b.succ(sb)
-        fits = [x for x in succs if acc and any(b.edge_dominates((sb, x), a.bb) for a in acc)]
+        fits = [x for x in succs if acc and any(edge_dom((sb, x), a.bb) for a in acc)]
         over = [x for x in succs if x not in fits]
         ok = bool(fits) and bool(over)
         # the overflow edge must leave the loop: reach flush without passing any line paint
@@ -749,7 +756,7 @@ def rule_height_guard(ctx, crate, rule="R-HEIGHT-GUARD"):
     fit_edges = []
     for sb, t, sl in guards:
         for x in b.succ(sb):
-            if acc and any(b.edge_dominates((sb, x), a.bb) for a in acc):
+            if acc and any(edge_dom((sb, x), a.bb) for a in acc):
                 fit_edges.append((sb, x))
     nonbar_edges = []
     for sb, t, pl, d in K.discr_switches(b):
@@ -760,7 +767,6 @@ def rule_height_guard(ctx, crate, rule="R-HEIGHT-GUARD"):
                 nonbar_edges.append((sb, tgt))
     # (when the line's kind is first stored in a flag - `let is_bar = matches!(line, Bar); if is_bar {..}` - the Bar-specialised
     # CFG folds the flag: a bar line cannot take the `!is_bar` path around the height test)
-    _R_bar, avoid_bar = K.variant_reach(b, crate, LINETYPE, "Bar", want_avoid=True)
     for c in paints:
         reach_wo = b.reach([0], avoid_edges=fit_edges + nonbar_edges)
         if c.bb in reach_wo:
@@ -770,7 +776,7 @@ def rule_height_guard(ctx, crate, rule="R-HEIGHT-GUARD"):
                   "a bar line can be painted without passing the terminal-height test", cfg)
     # accumulation happens only on the fits edge, and the commit uses it
     for a in acc:
-        ok = any(b.edge_dominates(e, a.bb) for e in fit_edges)
+        ok = any(edge_dom(e, a.bb) for e in fit_edges)
         ctx.check(ok, rule, "accumulate-after-fit", b.name, a.loc(),
                   "painted rows are accumulated only for lines that passed the height test",
                   "rows are counted for a line that was not painted", cfg)
